@@ -7,9 +7,15 @@
    facts used about it are the hypotheses below, each of which the check tests on every fragment pair
    of every run. *)
 From Coq Require Import ZArith QArith List Permutation.
-From PV Require Import Gen.DomainConst Gen.CloneConst Clone.Pairs Clone.PairsFacts Clone.PairsProofs Clone.PairsBatch Clone.PairsOrder Clone.PairsWitness.
+From PV Require Import Gen.DomainConst Gen.CloneConst Clone.Pairs Clone.PairsFacts Clone.PairsProofs Clone.PairsBatch Clone.PairsOrder Clone.PairsWitness Tie.CloneTie.
 Import ListNotations.
 Open Scope Z_scope.
+
+(* tie to the code: classify / overlapping / should_include of the model agree with the decision tables the translator
+   evaluated from classifyCloneType / isOverlappingLocation / shouldIncludeFragment of the current Go source *)
+Theorem C08_decision_tables : clone_tables_agree = true /\ clone_tables_nonempty = true.
+Proof. exact clone_tables_agree_ok. Qed.
+Print Assumptions C08_decision_tables.
 
 Section C08.
 Variable sim : frag -> frag -> Q.        (* APTEDAnalyzer.ComputeSimilarity on the fragments' trees *)
